@@ -13,6 +13,7 @@ import networkx as nx
 from ..model import src
 from ..report import Report, key_of
 from ..types import Ctx
+from ..terms import dag_nodes
 from .common import TRUSTED_BASE, cfg_nodes_for, inl, normal_succ, owner_of, where
 
 
@@ -129,7 +130,7 @@ def run(A, R: Report, thorough: bool):
         # symbolic value of the record: it must be built afresh on every call; a copy of something kept on the task shares the nested `log` list between runs
         A.sym._field_stores = []
         A.sym.func_term(finit, ('inst', task))
-        from ..terms import dag_nodes, normalise, pretty
+        from ..terms import normalise, pretty
         st = [normalise(v) for c, t, v in A.sym._field_stores if t.attr == '_run_info' and isinstance(t.value, ast.Name) and t.value.id == 'self']
         kept = [x for v in st for x in dag_nodes(v) if x[0] == 'attr' and x[1] == ('self',) and x[2] not in ('slugname', 'parameters', 'params', '_config', '__class__')]
         if st and kept:
@@ -164,8 +165,18 @@ def run(A, R: Report, thorough: bool):
             if needle not in text:
                 problems.append(label)
         it = [n for n in A.typer.own_nodes(finit) if isinstance(n, ast.Assign) and "['input_tasks']" in src(n.targets[0])]
-        if it and 'input_tasks' not in src(it[0].value):
-            problems.append('input_tasks not the config key map')
+        if it:
+            # the recorded input keys are the map that went into this task's own key: full input name -> storage key
+            vt = A.sym.terms_at(finit, ('inst', task), [n.value for n in it])
+            want = ('attr', ('attr', ('self',), '_config'), 'input_tasks')
+            for n in it:
+                for t_ in vt.get(id(n.value), []):
+                    if t_ == want or (t_[0] == 'call' and t_[1] in ('dict', 'copy.copy', 'copy.deepcopy') and t_[2] == (want,)):
+                        continue
+                    if t_[0] == 'mapdict' and not any(x[0] == 'attr' and x[2] in ('fullname',) for x in dag_nodes(t_[2])) and t_[2] != t_[1][0]:
+                        problems.append('input_tasks re-keyed (not by the full input names): inputs of the same class from different namespaces collapse to one entry')
+                    elif 'input_tasks' not in src(n.value):
+                        problems.append('input_tasks not the config key map')
         R.check(not problems, 'R18.4', 'Task._init_run_info', key_of('record', sorted(problems)), 'all record fields present', f'run-info record lacks / filters: {sorted(problems)}', where=where(finit))
     fsave = task.lookup('save_to_run_info')
     R.require(fsave is not None, 'anchor: Task.save_to_run_info missing')
